@@ -20,23 +20,23 @@ P = {
    text="CPC sketches at lg_k 4,5 are driven by (row,col) injection along column-major and row-major default paths through every flavor boundary and window shift with <=d deviations; in every state coupon count, rebuilt bit matrix, flavor/offset functions, kxp, ICON estimate, bounds and the serialize->deserialize->serialize fixpoint are compared with the model; cpc_union is explored by BFS over an operand menu.",
    note="lg_k 4..6 only; compressor tables exercised only on the column distributions these sizes produce."),
  "C06": dict(engine="grids+family", design="3/C06", technique="complete grid enumeration of the estimator/bound functions + complete enumeration of a fixed deterministic stream family",
-   text="Order/nesting/exactness clauses are decided over complete grids of binomial_bounds, ICON, HLL tables and over every state visited by small sketches; the statistical clauses are evaluated exactly over a fixed enumerated family of streams (labelled family_enumeration), not claimed beyond it.",
-   note="Statistical clauses are only decided over the stated family; thresholds derived from the published RSE with a 5-sigma allowance."),
+   text="Complete grids: binomial_bounds (every num_samples to 4096/8192 + geometric grid to 2^26 x 102-290 thetas x sd 1..3, against an exact binomial-tail oracle where the header documents exactness), ICON estimator for lg_k 4..26 and every C to 2^16/2^18 (monotone, continuity at the switch, against the definition of the estimator), HLL tables, and the order / nesting / exactness clauses through the API of Theta, Tuple, HLL (3 types in lock-step), CPC and their set-operation results after every update to 16k. The statistical clauses are evaluated exactly over the fixed family of streams {t*2^32 .. +n-1}, t < 1024 (family_enumeration) against the published RSE with a 5-sigma allowance.",
+   note="Statistical clauses decided only over the stated deterministic family; calibration gates set at >= 4x the value measured on the unchanged tree where the documentation gives no exact figure."),
  "C07": dict(engine="E1xE3", design="3/C07", technique="BFS over update/merge histories with every coin outcome as a branch, against an exact multiset model",
-   text="KLL (k=8), REQ (k=4, HRA/LRA) and classic quantiles (k=2) with float/string/custom-comparator items: every update/merge sequence over a small value domain up to a depth bound, on every outcome of the internal coin flips, checked in every state for n, exact min/max, iterator weights, retained bound, sorted view, rank/quantile monotonicity and coherence, CDF/PMF, rejection of invalid queries, and exactness before compaction.",
-   note="Smallest legal k; value domain of 4 values; merge operands from a fixed menu."),
+   text="KLL (k=8; float and string with a reversing comparator), REQ (k=4, HRA/LRA, both construction coins) and classic quantiles (k=2,4; int and string): BFS over update / query / merge histories (merge operands from an enumerated menu incl. unequal k and operands that are themselves merge results, by lvalue, rvalue and in the reverse direction) with every outcome of the internal coin flips and of the down-sampling offset as a branch; in every state n, exact min/max, iterator termination / count / weights (2^level) / sum, retained bound, sorted view, rank and quantile monotonicity and coherence, CDF/PMF, rejection of invalid queries and exactness before compaction are compared with the exact multiset of accepted items.",
+   note="Smallest legal k; 3-4 value domains; unsorted level 0 canonicalised as a multiset (sortedness flags and the cached-view flag are part of the state); depth bounds per scenario in the evidence."),
  "C08": dict(engine="E3", design="3/C08", technique="complete coin-tree enumeration with Markov state merging; exact integer unbiasedness identity",
-   text="For every explored history the full tree of coin outcomes is enumerated and the expectation of every rank estimate is compared exactly with the true rank; flips per history are asserted outcome-independent; exact error distributions are compared with the published rank error; long streams over a fixed enumerated family of bit sources.",
-   note="Short streams exhaustively; long-stream clause only over a fixed family of deterministic bit sources."),
+   text="(1) BFS over distribution-states: every update sequence over a 3-value domain up to a length bound with the complete coin tree and Markov merging; (2) complete coin trees for distinct-valued stream shapes and merge trees (A.merge(B), rvalue, reverse direction, three-way, unequal k) with the exact identity E[n*rank(v)] == true count for every grid value and both criteria, and outcome-independence of the number of flips; (3) complete coin trees over long small-domain streams with live (cloned, validated) states - REQ to n=460/900 so that several levels grow; (4) one-step martingale checks along long distinct-valued streams under fixed coin schedules for KLL and classic (not REQ, whose odd compactions reuse the complement of the previous coin); (5) the published error follows the smallest contributing k through merge chains; (6) long streams over a fixed enumerated family of bit sources against the published error (family_enumeration).",
+   note="Exhaustive parts at the smallest legal k; raw-draw interval discovery assumes that a difference between two values of one draw shows under one of the enumerated continuations; clones are validated against the canonical state on every use."),
  "C09": dict(engine="E1-corpus", design="3/C09", technique="one-step differential (serialize/deserialize/continue) from every state of enumerated per-family corpora",
-   text="For every corpus state of every serializable family: bytes==stream image, advertised size, header reservation, exact stream consumption, observational equality of restored sketches, re-serialization identity, and agreement after one further step of every alphabet operation.",
-   note="Corpora are depth-bounded enumerations at small sizes."),
+   text="For every state of the enumerated corpora of all 34 (type, image kind) families (every n to a bound x patterns x configurations x coin schedules, post-merge states, union results, HLL_4 aux exceptions, every theta bit-packing width 1..63 x count 1..17): byte-vector image == stream image, advertised size, header reservation (h in {1,7,8,13}), exact-size buffer under ASan, exact stream consumption with a sentinel tail, observational equality of the restored objects (bytes, stream, wrap), re-serialization identity (content identity for hash-table layouts), release of everything on destruction, and identical observations under a chain of continuation operations with identical draw schedules.",
+   note="Corpus = explicit enumerations in harness/fam_*.hpp, not every reachable state; observation vectors are the public API plus a few private fields that are serialized."),
  "C10": dict(engine="E1-corpus", design="3/C10", technique="documentation-derived decoders and golden images checked over enumerated corpora; hash functions against independent implementations",
-   text="Images of every corpus state are decoded by independent readers written from the documented layouts; golden images written by the baseline commit must still deserialize to the recorded observations and be reproduced byte-for-byte; shipped legacy .sk files are read; MurmurHash3/XXH64 are compared with independent implementations for all lengths 0..80.",
-   note="Golden corpus generated once from the baseline commit."),
+   text="(1) MurmurHash3_x64_128, XXHash64 (one-shot and incremental) and compute_seed_hash against independent implementations for every length 0..80 x 8 seeds x 4 patterns; (2) golden corpus of ~8000 images written by the baseline commit: each still deserializes (bytes and stream) to the recorded observation, and the same states written by the current tree reproduce the golden bytes (listed exceptions for fix: commits); (3) the 15 shipped reference images incl. Java theta v1/v2, KLL v1, classic quantiles 0.3.0-0.8.3, t-digest reference files; theta v1/v2 images synthesised from the documentation for every theta corpus state; (4) decoders written only from the documented layouts for all 34 families recover from every corpus image what the API reports.",
+   note="Golden corpus limited to images <= 2 KiB of the quick corpus; CPC payload checked through its preamble and the golden bytes only (table-compressed)."),
  "C11": dict(engine="E4", design="3/C11", technique="exhaustive fault enumeration: every prefix length and every preamble byte x replacement set, on exact-size buffers under ASan, bytes and stream paths",
-   text="For every image in the corpus and every reader path, every strict prefix and every preamble-byte corruption from a fixed replacement set is executed on an exactly sized heap block under AddressSanitizer with a tracking allocator, allocation cap and per-case alarm.",
-   note="Replacement set of 13 values per preamble byte; images <= 4 KiB."),
+   text="For every selected corpus image (one per distinct (size, first 8 bytes) shape, <= 4 KiB, all 34 families) and every reader path (bytes on an exactly sized heap block, stream ending there, wrap): every strict prefix length and every preamble byte x 13 replacement values is executed under AddressSanitizer with an arena-tracking allocator (request cap), an instrumented item type and a per-case alarm; accepted corrupt images are driven through a usability script (all getters, other serialization formats, conversions, every continuation operation). ~0.7 M cases quick, ~4 M thorough.",
+   note="Oracle follows the clauses of the statement (see DESIGN 0.2); ASan in recover mode reports a given PC once per process, so repeated faults at one site count once; requests within the documented maximum of a format are refused by the harness allocator and classified as rejection."),
  "C12": dict(engine="E1", design="3/C12", technique="BFS over weighted updates/merges/round-trips with a slot-controlling hasher, against an exact counter map",
    text="Frequent-items sketch at the smallest map sizes with a harness hasher that places items in chosen slots (distinct, wrapping cluster, all-colliding): every history to the depth bound, with bounds, estimates, max error, total weight, and both error-type result sets compared with exact counts for every item in every state.",
    note="lg_max_map_size 3..4, 8 items, weights {1,2,5}."),
@@ -59,8 +59,8 @@ P = {
    text="EBPPS for k 1..3 over all weight sequences to a bound and merges in both directions: n, cumulative weight, c, sample sizes on every branch; inclusion probability of every item equals c*w/W exactly in expectation.",
    note="Integer weights {1,2,4}."),
  "C19": dict(engine="E5", design="3/C19", technique="BFS over lifecycle operations on 2-3 slots per family with a tracking allocator and instrumented items under ASan",
-   text="For each sketch/operator family: every interleaving (to the depth bound) of construct/update/merge/copy/move/assign/self-assign/reset/destroy over slots; copies equal and independent, moved-from objects destructible and assignable, allocator ledger balanced and arena-consistent, items constructed/destroyed exactly once, no ASan report.",
-   note="Transient scratch via std::allocator is listed, not gated."),
+   text="For 21 sketch / operator families instantiated with the arena-tracking allocator (a separate arena per slot) and the instrumented item type: BFS to depth 6 (quick) / 8 (thorough) over construct, light update, mode-changing update, merge by reference and by move, copy- and move-construction, copy- and move-assignment, self-assignment, reset, serialize and destroy on 2 (and 3) slots; after every operation copies equal their source, other slots are unchanged, moved-from objects accept destruction and assignment, the ledgers show no arena / size mismatch and no item misuse, no ASan report; every new state is then destroyed completely and nothing may remain allocated, items constructed == destroyed.",
+   note="Content alphabet of at most 2 light and 1 mode-changing operation per slot; transient scratch obtained through std::allocator is not gated."),
  "C20": dict(engine="E3", design="3/C20", technique="BFS over point sequences/merges with every coin and shuffle outcome as a branch",
    text="Density sketch k 2..4, dim 1..2, Gaussian and harness kernels: n, retained==iterated==sum of levels, weights 2^level, retained bound, exact estimate before first compaction, finiteness/non-negativity, merge adds n, wrong dimension refused.",
    note="4-point grid; shuffle outcomes discovered as equal intervals of the raw draw."),
